@@ -175,7 +175,8 @@ def rule_rg3(ctx) -> None:
     ctx.rule("C15-Rg3", "atom-map removal is applied to every row before anything reads the reaction column", 3)
     pl = Pipeline(ctx)
     v = ctx.balancer.get("remove_aam")
-    ok = v == frozenset({Val("const", True)})
+    # the constant True, or a constructor parameter whose default is True (the property is stated for the default configuration)
+    ok = v == frozenset({Val("const", True)}) or (len(v) == 1 and next(iter(v)).kind == "sym" and next(iter(v)).default is True)
     ctx.instance("C15-Rg3", "Balancer.remove_aam = %s" % sorted(map(repr, v)), "synrbl/balancing.py", ok=ok)
     if not ok:
         ctx.finding("C15-Rg3", "Balancer.__init__:remove_aam", "synrbl/balancing.py:1", "remove_aam is not the constant True after construction (%s)" % sorted(map(repr, v)))
@@ -284,14 +285,27 @@ def rule_rg5(ctx) -> None:
     names = set()
     for r in rets:
         v = r.value.elts[0] if isinstance(r.value, ast.Tuple) and r.value.elts else r.value
+        if isinstance(v, ast.Attribute) and isinstance(v.value, ast.Name):
+            v = v.value  # a field of a (named) tuple bound to a local: trace the local
         if isinstance(v, ast.Name):
             names.add(v.id)
         else:
             ctx.require(False, "__rebalance_batch returns %s; cannot trace the rows" % unparse(v)[:40])
     allowed = {"synrbl.balancing.Balancer.__run_pipeline", "synrbl.balancing.Balancer.__try_cache"}
-    for nm in sorted(names):
+    work, done = sorted(names), set()
+    while work:
+        nm = work.pop()
+        if nm in done:
+            continue
+        done.add(nm)
         for stmt, v, idx in assignments_to(rb, nm):
+            if idx is not None and isinstance(v, (ast.Tuple, ast.List)) and idx < len(v.elts):
+                v = v.elts[idx]  # a, b = x, y
             ok, src = False, unparse(v)[:50]
+            if isinstance(v, ast.Attribute) and isinstance(v.value, ast.Name):
+                work.append(v.value.id)  # a field of a result object: trace the object
+                ctx.instance("C15-Rg5", "%s = %s (field of %s)" % (nm, src, v.value.id), rb.loc(stmt), ok=True, nontrivial=False)
+                continue
             if isinstance(v, ast.Constant) and v.value is None:
                 ok = True
             elif isinstance(v, ast.Call):
